@@ -66,7 +66,13 @@ func c05World(r *rand.Rand) (files map[string]string, element, food string, dept
 			gen.Recipe{Name: "sh/first", Ents: []gen.Ent{{Name: "sh/base", Val: gen.N("1")}, {Name: basics[0], Val: gen.N("50")}, {Name: basics[3], Val: gen.N("7")}, {Name: basics[1], Val: gen.N("2")}}},
 			gen.Recipe{Name: "sh/twice", Ents: []gen.Ent{{Name: "sh/base", Val: gen.N("2")}}},
 			gen.Recipe{Name: "sh/thrice", Ents: []gen.Ent{{Name: basics[3], Val: gen.N("1")}, {Name: "sh/base", Val: gen.N("3")}}},
-			gen.Recipe{Name: "sh/also", Ents: []gen.Ent{{Name: "sh/base", Val: gen.N("1.0")}, {Name: "sh/twice", Val: gen.N("1")}}})
+			gen.Recipe{Name: "sh/also", Ents: []gen.Ent{{Name: "sh/base", Val: gen.N("1.0")}, {Name: "sh/twice", Val: gen.N("1")}}},
+			// three levels of decimal amounts whose product sits on a rounding tie: (a*b)*c and a*(b*c) print differently
+			gen.Recipe{Name: "sh/l1", Ents: []gen.Ent{{Name: "sh/l2", Val: gen.N("27.5")}}},
+			gen.Recipe{Name: "sh/l2", Ents: []gen.Ent{{Name: "sh/l3", Val: gen.N("0.7")}}},
+			gen.Recipe{Name: "sh/l3", Ents: []gen.Ent{{Name: basics[0], Val: gen.N("0.1")}, {Name: basics[1], Val: gen.N("0.9")}}},
+			gen.Recipe{Name: "sh/m1", Ents: []gen.Ent{{Name: "sh/m2", Val: gen.N("12.5")}, {Name: "sh/l2", Val: gen.N("11.5")}}},
+			gen.Recipe{Name: "sh/m2", Ents: []gen.Ent{{Name: "sh/l3", Val: gen.N("0.1")}}})
 	}
 	r.Shuffle(len(book), func(a, b int) { book[a], book[b] = book[b], book[a] })
 	var log gen.Log
@@ -79,7 +85,7 @@ func c05World(r *rand.Rand) (files map[string]string, element, food string, dept
 		}
 		pool = append(pool, "ch1", "ch2")
 		if shared {
-			pool = append(pool, "sh/twice", "sh/thrice", "sh/first", "sh/base", "sh/also")
+			pool = append(pool, "sh/twice", "sh/thrice", "sh/first", "sh/base", "sh/also", "sh/l1", "sh/m1", "sh/l1", "sh/m1")
 		}
 		for j := 0; j < 3+r.Intn(8); j++ {
 			day.Ents = append(day.Ents, gen.Ent{Name: pool[r.Intn(len(pool))], Val: c05Val(vals[r.Intn(len(vals))])})
@@ -138,13 +144,18 @@ func runC05(c *core.Ctx) {
 	core.ParallelFor(n, c.Procs, func(wk, i int) {
 		srv := pool.Servers[wk]
 		r := c.Rng("world", i)
+		layout := "2006/01/02"
 		files, element, food, depthArgs := c05World(r)
 		if i%3 == 2 {
 			// every third input is a general world (nested recipes with sharing, quantities of exactly 1,
 			// repeated ingredients, redeclared headings, many elements): visiting-order effects need not
 			// come from ties
-			w := newWorld(r, worldOpts{Exact: i%2 == 0, MinDays: 1, Notes: true, NoBig: true})
+			// in one of three date layouts: the job server then sees runs under different layouts one after the other,
+			// and what an earlier run left behind in the process must not show in a later one
+			wl := []string{"2006/01/02", "02.01.2006", "2006-01-02"}[(i/3)%3]
+			w := newWorld(r, worldOpts{Exact: i%2 == 0, MinDays: 1, Notes: true, NoBig: true, Layout: wl})
 			files, element, food, depthArgs = w.Files(), w.Basics[r.Intn(len(w.Basics))], string([]rune(w.Recipes[0])[:1]), nil
+			layout = wl
 			c.Count("general_worlds", 1)
 		}
 		if i%10 == 7 {
@@ -168,7 +179,18 @@ func runC05(c *core.Ctx) {
 			cmds = append(cmds, randomCmd(r, element, food, "2021/03/01").Args)
 		}
 		for ci, cmd := range cmds {
-			global := []string{"--no-color", "-d", "food.yaml", "-l", "log.yaml", "--today", "2021/03/10"}
+			if layout != "2006/01/02" {
+				cmd = append([]string{}, cmd...)
+				for k := range cmd {
+					if cmd[k] == "2021/03/01" {
+						cmd[k] = gen.Date{Y: 2021, M: 3, D: 1}.Format(layout)
+					}
+				}
+			}
+			global := []string{"--no-color", "-d", "food.yaml", "-l", "log.yaml", "--today", gen.Date{Y: 2021, M: 3, D: 10}.Format(layout)}
+			if layout != "2006/01/02" {
+				global = append(global, "--date-format", layout)
+			}
 			if (i+ci)%2 == 0 {
 				global = append(global, depthArgs...)
 			}
